@@ -90,6 +90,9 @@ func c07Funcs(c *Ctx) []*ssa.Function {
 
 func c07() []*Ob {
 	return []*Ob{
+		{Prop: "C07", ID: "C07.12", Engine: "PROV(delegation)", Floor: 3,
+			Desc:  "the proxy fraction has no memory of its own: every return of proxyFrac.Info, Contains and IsIntersecting is the result of the same call on the fraction that is current at that moment (f.cur(), f.active, f.sealed) — the borders and counters of a fraction keep moving after it became read-only, until the writers that had passed the writable check are done; an Info remembered at the first read-only call hides the documents indexed after it from ranged searches and from fetch until the sealing ends",
+			Check: func(c *Ctx) { answersFromCurrentFraction(c) }},
 		{Prop: "C07", ID: "C07.11", Engine: "PAIR(two sites)", Floor: 1,
 			Desc:  "sealing a fraction that retention deleted meanwhile is not a fatal error: wherever package fracmanager tests errors.Is with the sentinel as first argument (which matches the bare sentinel only), every producer of that error returns the sentinel itself, not a wrapped one",
 			Check: func(c *Ctx) { sentinelRecognised(c) }},
